@@ -19,7 +19,9 @@ func init() {
 				cfgs = []string{"linux", "linux-race", "darwin", "freebsd"}
 			}
 			for _, c := range cfgs {
-				r.use(c)
+				if r.useOpt(c) == nil {
+					continue
+				}
 				c14(r)
 			}
 		})
@@ -157,6 +159,46 @@ func c14(r *Run) {
 		}
 	}
 
+	// the retry loop is bounded: its counter advances on every iteration
+	{
+		fn := w.MustFn("(*sysDialer).dialTCP")
+		found, ok := false, true
+		for _, b := range fn.Blocks {
+			for _, ins := range b.Instrs {
+				phi, isPhi := ins.(*ssa.Phi)
+				if !isPhi {
+					continue
+				}
+				// a loop counter: compared with a small constant bound in the header
+				isCounter := false
+				for _, ref := range *phi.Referrers() {
+					if bo, isB := ref.(*ssa.BinOp); isB && bo.Op == token.LSS && bo.X == ssa.Value(phi) {
+						if k, okc := constInt(bo.Y); okc && k <= 8 {
+							isCounter = true
+						}
+					}
+				}
+				if !isCounter {
+					continue
+				}
+				found = true
+				for pi, e := range phi.Edges {
+					if !b.Dominates(b.Preds[pi]) {
+						continue // entry edge
+					}
+					inc, isB := e.(*ssa.BinOp)
+					if !isB || inc.Op != token.ADD || inc.X != ssa.Value(phi) {
+						ok = false
+						continue
+					}
+					if k, okc := constInt(inc.Y); !okc || k <= 0 {
+						ok = false
+					}
+				}
+			}
+		}
+		r.ob("C14.R1:retry-bounded", "the self-connect / EADDRNOTAVAIL retry loop advances its counter on every iteration (a persistent EADDRNOTAVAIL cannot make the dial spin past its timeout)", fn, nil, found && ok, fmt.Sprintf("bounded counter found=%v, incremented on every back edge=%v", found, ok), true)
+	}
 	// a connection that was established is handed to the caller or closed - never dropped
 	for _, c := range []struct{ fn, callee string }{
 		{"(*dialer).dialTCP", "DialTCP"}, {"DialTCP", "(*sysDialer).dialTCP"}, {"DialUnix", "(*sysDialer).dialUnix"},
